@@ -247,3 +247,5 @@ Print Assumptions alphabet_is_the_image.
 
 (* ---------- the public getters (SequenceParameters) are exactly a return of the backend call with their own arguments ---------- *)
 Lemma fw_get_reduced_alphabet_sequence : g_fw_get_reduced_alphabet_sequence = SReturn (ECall "SeqObj.get_reducedAlphabetSequence"%string [EVar "alphabetSize"%string; EVar "userAlphabet"%string]). Proof. reflexivity. Qed.
+(* the backend method between the getter and the complexity object: exactly a return of reduce_alphabet(own sequence, size, user alphabet) *)
+Lemma fw_get_reducedAlphabetSequence : g_get_reducedAlphabetSequence = SReturn (ECall "ComplexityObject.reduce_alphabet"%string [EVar "self.seq"%string; EVar "alphabetSize"%string; EVar "userAlphabet"%string]). Proof. reflexivity. Qed.
